@@ -48,6 +48,7 @@ class Arr:
     filledwith: object = None  # plain result of x.filled(v): (mask coverage of x, source text of v)
     validM: frozenset = E  # boolean array that is false wherever these inputs are missing (a masked comparison filled with False)
     ascending: bool = False  # a 1-D collection of values known to be in ascending order (sorted in place, or built from a sorted list)
+    keeps: object = None  # (op, scalar identity, alias of the population): exactly the cells of that population with `cell <op> scalar` are present here
 
 
 @dataclass(frozen=True)
@@ -195,6 +196,7 @@ class Result(object):
         self.fresh_executes = []  # (node, class, funckey): <Command subclass>(...).execute(...) evaluated on the spot
         self.scaldivs = []  # scalar / scalar divisions: (line, dividend, divisor, node, funckey)
         self.return_conds = {}  # id(return stmt) -> branch conditions under which it was reached
+        self.half_stats = []  # (node, statistic, (op, scalar identity, population alias), funckey): a statistic over the cells on one side of a scalar
         self.maskstores = []  # (line, target Arr, value, node, funckey)
         self.layer_reads = []  # (node, sel, sorted?, funckey)
         self.layer_reduces = []  # (node, sel of the reduced value, method, funckey)
@@ -867,6 +869,8 @@ class Interp(object):
         if isinstance(it, Arr):
             if it.shape in ("same", "stacked", "rankdep"):
                 self.finding("equivariance", node, "python-level iteration over an array walks a data axis: %s" % _src(node), fr)
+            if it.shape == "layervec":
+                return Scal(D=it.D, Pg=it.Pg | it.Pc, dt=it.dt, masked_const_possible=it.kind == "masked", sym="layernum")  # one layer's number
             return Scal(D=it.D, Pg=it.Pg | it.Pc) if it.shape == "flat" else replace(it, shape="unknown", alias=it.alias)
         self.unsupported("iteration over %r" % (it,), node, fr)
 
@@ -1430,6 +1434,11 @@ class ArrayInterp(Interp):
             D = v.D
             Pg = v.Pg
             return Lst("nums", srcs=("derived",) + tuple(getattr(it, "srcs", ())), elem=Scal(D=D, Pg=Pg, dt=v.dt, rng=v.rng, sym=v.sym if (v.sym or "").startswith("clamped(") else None))
+        members = [it] + list(getattr(it, "zipped", ()) or ())
+        if any(isinstance(m_, Lst) and m_.what in ("cmds", "arrs") and m_.L for m_ in members) and (filtered or isinstance(v, Lst)):
+            # the input arrays regrouped (pairs with their weights, say) or filtered into a new list: which inputs are left, and in
+            # which roles, is not followed from here
+            self.unsupported("a comprehension that regroups or filters the input list (%s)" % _src(e)[:60], e, fr)
         return Lst("opaque")
 
     # ---------------------------------------------------------------- attributes
@@ -1692,8 +1701,11 @@ class ArrayInterp(Interp):
             return replace(base, shape="unknown", sel=("?", _src(e.slice)))
         if isinstance(idx, Arr) and idx.isbool:
             pc = base.Pc | (idx.D if idx.kind == "masked" else idx.Pc)
+            kp = None
+            if idx.cmp is not None and idx.cmp[1] in ("Lt", "LtE", "Gt", "GtE") and idx.cmp[2] is not None and (idx.cmp[0] & (base.alias | base.dataof)):
+                kp = (idx.cmp[1], idx.cmp[2], frozenset(base.alias))  # x[x <op> s]: the cells of x on that side of s
             return replace(base, shape="flat", alias=self.S(e), D=base.D | idx.D, Pc=pc, rng=(None, None), cmp=None, maskof=E,
-                           dataof=E, M=base.M if base.kind == "masked" else E)
+                           dataof=E, M=base.M if base.kind == "masked" else E, keeps=kp)
         if isinstance(idx, Other) and idx.tag == "index1":
             if base.shape == "same":
                 self.finding("equivariance", e, "`%s` is indexed with one component of numpy.where(...): for rank >= 2 whole rows/slabs are selected instead of cells" % _src(e), fr)
@@ -1701,10 +1713,18 @@ class ArrayInterp(Interp):
         if isinstance(idx, Other) and idx.tag == "index":
             a = idx.info
             return replace(base, alias=self.S(e), D=base.D | a.D, Pc=base.Pc | a.Pc, rng=(None, None), shape="flat" if base.shape == "same" else base.shape)
+        if base.shape == "layervec" and (is_slice or (isinstance(idx, Scal) and (isinstance(idx.const, int) or idx.sym))):
+            # one number per layer: an element of it is that layer's number (a weight), a slice the numbers of those layers
+            if is_slice:
+                return replace(base, alias=self.S(e) | base.alias, ascending=False)
+            return Scal(D=base.D, Pg=base.Pg | base.Pc, dt=base.dt, masked_const_possible=base.kind == "masked", sym="layernum[%s]" % (idx.const if idx.const is not None else idx.sym))
         if is_slice:
             lo, hi = idx.info
             if lo is None and hi is None:
                 return base
+            if base.shape == "flat" and (lo is None) != (hi is None) and isinstance(lo if hi is None else hi, Scal) and (lo if hi is None else hi).sym and (lo if hi is None else hi).sym.startswith("pos("):
+                # a sorted 1-D collection cut at one position: `x[:k]` and `x[k:]` are the two sides of that cut, every value in one
+                return replace(base, alias=self.S(e) | base.alias, keeps=("Head" if lo is None else "Tail", ("s", (lo if hi is None else hi).sym), frozenset(base.alias)))
             if base.shape == "same":
                 self.finding("equivariance", e, "positional slice along a data axis: %s" % _src(e), fr)
             return replace(base, shape="unknown")
@@ -1941,6 +1961,16 @@ class ArrayInterp(Interp):
                 if meth in ("pop", "remove", "sort", "reverse", "clear") and isinstance(basenode, ast.Name) and base.what != "mixed":
                     self.unsupported("list method .%s() on %s" % (meth, base.what), e, fr)
                 if meth in ("append", "extend", "insert") and isinstance(basenode, ast.Name):
+                    def holds_input(v_):
+                        if isinstance(v_, Arr):
+                            return any(is_input_token(t_) for t_ in v_.alias)
+                        if isinstance(v_, Lst) and v_.items:
+                            return any(holds_input(x_) for x_ in v_.items)
+                        return False
+                    if meth == "append" and A and isinstance(A[0], Lst) and A[0].what == "mixed" and holds_input(A[0]) and self.cond_stack:
+                        # input arrays put, with something else, into a new list under a condition: which inputs are left, in which
+                        # roles, is not followed from here
+                        self.unsupported("a loop that regroups or filters the input arrays into a new list (%s)" % _src(e)[:60], e, fr)
                     fr.env[basenode.id] = Lst("opaque") if base.what not in ("nums",) else base
                     return Other("none")
                 if meth in ("index", "count"):
@@ -2209,7 +2239,9 @@ class ArrayInterp(Interp):
         dt = F_ if meth in ("mean", "std", "var", "median") else (I_ if meth == "count" else base.dt)
         if base.shape in ("stacked", "rankdep"):
             self.finding("equivariance", node, "reduction over layers and cells together: %s" % _src(node), fr)
-        scope = "all" if base.shape == "same" and not base.sel else "subset"
+        scope = "all" if base.shape == "same" and not base.sel and base.keeps is None else "subset"
+        if base.keeps is not None:
+            self.res.half_stats.append((node, meth, base.keeps, self.fkey(fr)))
         return Scal(D=base.D, Pg=pg, dt=dt, masked_const_possible=base.kind == "masked", sym="stat:%s(%s)" % (meth, scope) if base.D else None)
 
     def reshape_shape(self, base, e, fr):
@@ -2333,6 +2365,16 @@ class ArrayInterp(Interp):
             if base.shape == "same":
                 self.finding("equivariance", e, "transpose rearranges cells: %s" % _src(e), fr)
             return replace(base, shape="unknown", alias=base.alias)
+        if meth in ("ravel", "flatten", "reshape"):
+            ordk = next((k_.value for k_ in e.keywords if k_.arg == "order"), None)
+            if ordk is None and meth in ("ravel", "flatten") and len(e.args) == 1:
+                ordk = e.args[0]
+            if ordk is not None and not (isinstance(ordk, ast.Constant) and ordk.value == "C"):
+                if isinstance(ordk, ast.Constant) and ordk.value in ("A", "K"):
+                    # A32: the order then follows the memory layout of THIS array, and the 1-D intermediate has no layout to follow
+                    self.finding("equivariance", e, "%s(order=%r) reads / writes the cells in the order they lie in memory: for a Fortran-ordered grid (a transposed grid, asfortranarray, loadmat output) the flat values and the grid they are folded back into are matched differently, so values land in other cells" % (meth, ordk.value), fr)
+                    return replace(base, shape="unknown", alias=base.alias | self.S(e))
+                self.unsupported("%s with order=%s (only the default row-major order is followed)" % (meth, _src(ordk)), e, fr)
         if meth == "reshape" and e.args:
             got = self.reshape_shape(base, e, fr)
             if got is not None:
@@ -2424,7 +2466,7 @@ class ArrayInterp(Interp):
             Pg_ = frozenset().union(*[(x.Pg | (x.Pc if isinstance(x, Arr) else E)) for x in A[:2] if isinstance(x, (Arr, Scal))])
             if isinstance(A[1], Arr):
                 return replace(A[1], alias=S(), dt=I_, D=D_, rng=(None, None), maskof=E, dataof=E, cmp=None)
-            return Scal(D=D_, Pg=Pg_, dt=I_)
+            return Scal(D=D_, Pg=Pg_, dt=I_, sym="pos(%s@%d)" % (scal_id(A[1]), e.lineno))
         if qn in ("numpy.shape", "numpy.ma.shape") and len(A) == 1 and not K:
             if isinstance(a0, Arr):
                 return Lst("shape", srcs=(a0.shape,))
@@ -2473,6 +2515,10 @@ class ArrayInterp(Interp):
             if isinstance(a0, Kw):
                 return a0.copy()
             return a0 if a0 is not None else Other("opaque")
+        if qn in ("numpy.ma.array", "numpy.ma.asarray", "numpy.ma.asanyarray", "numpy.ma.masked_array") and isinstance(a0, Lst) and a0.what == "nums" and a0.sliced is None and "mask" not in K:
+            # one number per input (the weights) as a masked vector along the layer axis: a division of it by zero gives missing weights
+            el = a0.elem if isinstance(a0.elem, Scal) else Scal()
+            return Arr(kind="masked", alias=S(), shape="layervec", dt=F_ if "dtype" in K else IF_, D=el.D, Pg=el.Pg, ascending=a0.sorted_)
         if qn in ("numpy.ma.array", "numpy.ma.MaskedArray", "numpy.ma.masked_array", "numpy.ma.asarray", "numpy.ma.asanyarray"):
             return self.make_masked_array(qn, e, A, K, fr)
         if qn in ("numpy.array", "numpy.asarray", "numpy.asanyarray", "numpy.ascontiguousarray"):
@@ -2551,10 +2597,20 @@ class ArrayInterp(Interp):
                 # copy=False builds a view sharing the mask buffer and then assigns `.mask`: the (soft) mask setter writes the
                 # new mask into the shared buffer, so the argument's own missing cells change
                 self.write_site(x, e, "mask store through %s(copy=False)" % name, fr)
+            kp = None
+            if op in ("Lt", "LtE", "Gt", "GtE") and scal_id(val) is not None:
+                # masking the cells on one side leaves exactly the cells on the other side present
+                kp = ({"Lt": "GtE", "LtE": "Gt", "Gt": "LtE", "GtE": "Lt"}[op], scal_id(val), frozenset(x.alias))
             out = replace(x, kind="masked", alias=S() if fresh else x.alias | S(), M=(x.M if x.kind == "masked" else E) | (m.M if isinstance(m, Arr) else E), maskof=E, dataof=E,
-                          rng=(None, None), constmask=False, Pc=x.Pc | (m.Pc if isinstance(m, Arr) else E))
+                          rng=(None, None), constmask=False, Pc=x.Pc | (m.Pc if isinstance(m, Arr) else E), keeps=kp)
             self.res.maskstores.append((e.lineno, out, m, e, self.fkey(fr)))
             return out
+        if qn in ("numpy.ma.compress_rows", "numpy.ma.compress_cols", "numpy.ma.compress_rowcols", "numpy.ma.mask_rows", "numpy.ma.mask_cols", "numpy.ma.mask_rowcols"):
+            # whole rows / columns are taken out (or masked) because ONE of their cells is missing: a 2-D, position-dependent operation
+            if isinstance(a0, Arr):
+                self.finding("equivariance", e, "%s removes or masks whole rows / columns that hold a missing cell: defined for 2-D tables only, and cells that are present go with the missing one" % qn, fr)
+                return replace(a0, kind="plain" if "compress" in qn else a0.kind, shape="unknown", alias=S(), maskof=E, dataof=E)
+            return Other("opaque")
         if qn in ("numpy.ma.getmaskarray", "numpy.ma.getmask"):
             if isinstance(a0, Arr):
                 return Arr(kind="plain", isbool=True, alias=S() if qn.endswith("getmaskarray") else a0.alias, M=a0.M, shape=a0.shape, dt=B_, maskof=a0.alias, constmask=a0.constmask, layermask=a0.layermask)
